@@ -52,6 +52,9 @@ type mdb struct {
 	stmts     []*stmtRec
 	onStmt    func(*stmtRec)         // observation hook (with the baton held)
 	failNext  func(*stmtRec) error   // fault injection: return an error for this statement
+	// fault injection: the result set of this SELECT (n rows) breaks off after
+	// the returned number of rows with a driver error (< 0: it does not)
+	breakRows func(st *stmtRec, n int) int
 	afterExec func(*stmtRec, []mrow, []mrow) // (stmt, before images, after images) of committed writes
 	seqFn     func() uint64
 }
@@ -705,11 +708,15 @@ func (c *mconn) QueryContext(ctx context.Context, q string, args []driver.NamedV
 	}
 	switch st.kind {
 	case "COUNT":
-		return &mrows{cols: []string{"COUNT(*)"}, rows: []mrow{{"COUNT(*)": int64(len(rows))}}}, nil
+		return &mrows{cols: []string{"COUNT(*)"}, rows: []mrow{{"COUNT(*)": int64(len(rows))}}, failAt: -1}, nil
 	case "SCHEMA":
-		return &mrows{cols: []string{"COLUMN_NAME"}, rows: rows}, nil
+		return &mrows{cols: []string{"COLUMN_NAME"}, rows: rows, failAt: -1}, nil
 	}
-	return &mrows{cols: st.cols, rows: rows}, nil
+	res := &mrows{cols: st.cols, rows: rows, failAt: -1}
+	if c.d.breakRows != nil {
+		res.failAt = c.d.breakRows(st, len(rows))
+	}
+	return res, nil
 }
 
 func (c *mconn) ExecContext(ctx context.Context, q string, args []driver.NamedValue) (driver.Result, error) {
@@ -726,14 +733,21 @@ func (r mresult) LastInsertId() (int64, error) { return r.last, nil }
 func (r mresult) RowsAffected() (int64, error) { return r.aff, nil }
 
 type mrows struct {
-	cols []string
-	rows []mrow
-	i    int
+	cols   []string
+	rows   []mrow
+	i      int
+	failAt int // >= 0: Next fails instead of delivering row failAt (or the end of the set)
 }
+
+// errRowStream is what a dropped connection looks like while rows stream in.
+var errRowStream = errors.New("SIM-row-stream-broken: connection reset while reading rows")
 
 func (r *mrows) Columns() []string { return r.cols }
 func (r *mrows) Close() error      { return nil }
 func (r *mrows) Next(dest []driver.Value) error {
+	if r.failAt >= 0 && r.i >= r.failAt {
+		return errRowStream
+	}
 	if r.i >= len(r.rows) {
 		return io.EOF
 	}
